@@ -68,6 +68,17 @@ wstran_pipe_send_cb(void *arg)
 	uaio          = p->user_txaio;
 	p->user_txaio = NULL;
 
+	if (nni_aio_result(taio) != 0) {
+		// The message was not consumed: hand it back to the sender
+		// (who owns it on failure), or drop it if the sender is gone.
+		nni_msg *msg = nni_aio_get_msg(taio);
+		nni_aio_set_msg(taio, NULL);
+		if (uaio != NULL) {
+			nni_aio_set_msg(uaio, msg);
+		} else {
+			nni_msg_free(msg);
+		}
+	}
 	if (uaio != NULL) {
 		int rv;
 		if ((rv = nni_aio_result(taio)) != 0) {
